@@ -38,7 +38,7 @@ class _ExecutorKw(dict):
 
     def get(self, target, default=None):
         if target and "/rtf_extractor.py::" in target:
-            return {"unknown_items_are_str": True, "feas_timeout_ms": 30}
+            return {"unknown_items_are_str": True, "feas_timeout_ms": 10}
         return default
 
 
